@@ -291,6 +291,13 @@ func (c *cluster) pushPull(only int) {
 			if a == nil || b == nil || !up {
 				continue
 			}
+			// reference: what the sender holds (its snapshot form), not what it chooses to put on the wire; taken BEFORE
+			// the wire form, so that an entry the sender logs at this very instant can only make the wire form larger
+			var refSnap []byte
+			var sb bytes.Buffer
+			if _, err := a.nflog.Snapshot(&sb); err == nil {
+				refSnap = sb.Bytes()
+			}
 			if st, err := a.nflog.MarshalBinary(); err == nil {
 				at := time.Now()
 				for _, e := range decodeNflog(st) {
@@ -299,11 +306,9 @@ func (c *cluster) pushPull(only int) {
 					c.sim.mtx.Unlock()
 				}
 				_ = b.nflog.Merge(st)
-				// reference: what the sender holds (its snapshot form), not what it chose to put on the wire
 				ref := st
-				var sb bytes.Buffer
-				if _, err := a.nflog.Snapshot(&sb); err == nil {
-					ref = sb.Bytes()
+				if refSnap != nil {
+					ref = refSnap
 				}
 				if gaps := nflogNotCovered(ref, b.nflog, at); len(gaps) > 0 {
 					c.sim.mtx.Lock()
